@@ -296,10 +296,8 @@ def _distributed_case(ck, M, mm, mininec3, gname, kind, loaded, order):
                 for p in ld.pulses:
                     got.append((ld.geobj.n, p.idx, ld.impedance(f, p)))
             # reference, from pulse geometry and the constants of the wire of each half
-            ref = []
-            for gi, pidx, z in got:
-                p = m.pulses[pidx]
-                hv = mininec3.halves(p)
+            def ref_of(p):
+                hv = mininec3.halves(p, independent=False)      # half lengths exactly as the load sees them (bit-identical association)
                 acc = SC(0.0, 0.0)
                 for h in (0, 1):
                     w = p.geo[h]
@@ -318,13 +316,28 @@ def _distributed_case(ck, M, mm, mininec3, gname, kind, loaded, order):
                             b = npf.jv(0, kr) / npf.jv(1, kr)
                         zp = k / (2 * math.pi * w.r_orig * sig) * b
                     acc = acc + zp * half
-                ref.append(acc)
+                return acc
+            ref = [ref_of(m.pulses[pidx]) for gi, pidx, z in got]
+            # what the system matrix receives: EVERY pulse that has a half on a loaded wire, exactly once
+            n = len(m.pulses)
+            m.Z = np.zeros((n, n), dtype=object)
+            m.Z[...] = 0.0
+            m.compute_impedance_matrix_loads()
+            diag = [m.Z[i][i] for i in range(n)]
+            dref = []
+            for p in m.pulses:
+                wgt = (2.0 if (np.asarray(p.ground).any() and m.media is not None) else 1.0) / m.m
+                dref.append(ref_of(p) * SC(0.0, -1.0) * wgt)
         inp = dict(f=f, sigma1=P['sigma'][0], sigma2=P['sigma'][1], rho1=P['rho'][0], rho2=P['rho'][1], eps1=P['eps'][0], eps2=P['eps'][1])
-        return dict(inputs=inp, got=got, ref=ref)
+        return dict(inputs=inp, got=got, ref=ref, diag=diag, dref=dref)
 
     def goals(o):
-        return [('load of object %d on pulse %d = sum over halves of half length x per-length impedance of that half\'s wire' % (gi + 1, pi + 1),
-                 eq_term(z, r)) for (gi, pi, z), r in zip(o['got'], o['ref'])]
+        g = [('load of object %d on pulse %d = sum over halves of half length x per-length impedance of that half\'s wire' % (gi + 1, pi + 1),
+              eq_term(z, r)) for (gi, pi, z), r in zip(o['got'], o['ref'])]
+        for i, (a, b) in enumerate(zip(o['diag'], o['dref'])):
+            g.append(('matrix diagonal of pulse %d carries the conductor length that pulse stands for, once' % (i + 1),
+                      close_term(a, b, 1e-9) if kind == 'ins' else eq_term(a, b)))
+        return g
 
     def replay(c, gn, out):
         import scipy.special as sps
@@ -336,7 +349,7 @@ def _distributed_case(ck, M, mm, mininec3, gname, kind, loaded, order):
         for ld in [lds[loaded[k]] for k in order]:
             for p in ld.pulses:
                 z = ld.impedance(c['f'], p)
-                hv = m3.halves(p)
+                hv = m3.halves(p, independent=False)
                 acc = 0j
                 for h in (0, 1):
                     w = p.geo[h]
@@ -357,6 +370,32 @@ def _distributed_case(ck, M, mm, mininec3, gname, kind, loaded, order):
                     return ('C08:distributed:%s:%s' % (kind, 'junction' if p.geo[0] is not p.geo[1] else 'interior'),
                             '%s, %s on object(s) %s: load of object %d on pulse %d is %r, per-half sum gives %r'
                             % (gname, kind, [i + 1 for i in loaded], ld.geobj.n + 1, p.idx + 1, z, acc), dict(kind='distributed', geometry=gname))
+        # every pulse: matrix diagonal vs conductor length it stands for
+        n = len(m.pulses)
+        m.Z = np.zeros((n, n), dtype=complex)
+        m.compute_impedance_matrix_loads()
+        for p in m.pulses:
+            hv = m3.halves(p, independent=False)
+            acc = 0j
+            for h in (0, 1):
+                w = p.geo[h]
+                if w.n not in lds:
+                    continue
+                half = hv[h]['len'] / 2
+                if kind == 'ins':
+                    e = P['eps'][w.n]
+                    zp = 1j * omg * MU0 * (e - 1) / e * math.log(insr[w.n] / w.r_orig) / (2 * math.pi)
+                else:
+                    sig = P['sigma'][w.n] if kind == 'skin-c' else 1 / P['rho'][w.n]
+                    k = np.sqrt(-1j * omg * MU0 * sig)
+                    kr = k * w.r_orig
+                    b = 1j if abs(kr) >= 110 else sps.jv(0, kr) / sps.jv(1, kr)
+                    zp = k / (2 * math.pi * w.r_orig * sig) * b
+                acc += zp * half
+            wgt = (2.0 if (np.asarray(p.ground).any() and m.media is not None) else 1.0) / m.m
+            if not close(m.Z[p.idx][p.idx], -1j * acc * wgt, 1e-7, 1e-300):
+                return ('C08:distributed:%s:matrix' % kind, '%s, %s on object(s) %s: pulse %d stands for conductor worth %r ohm, the matrix receives %r'
+                        % (gname, kind, [i + 1 for i in loaded], p.idx + 1, acc, m.Z[p.idx][p.idx] / (-1j * wgt)), dict(kind='distributed', geometry=gname))
         return None
     prove_paths(ck, 'dist-%s-%s-w%s-o%s' % (gname, kind, ''.join(str(i + 1) for i in loaded), ''.join(map(str, order))), fn, goals, replay,
                 max_paths=64, sqrt_mode='uf-free', timeout_ms=5000 if ck.tier == 'quick' else 30000,
